@@ -20,7 +20,7 @@ RULE = (
     "geometry of default-constructed fields vs the documented one. field_struct: a binary integer field of a user "
     "subclass (two levels deep) whose class-level type table adds a 1-byte integer, sizes 1/2/4: the layout clauses "
     "(Spec.C02.holdsFieldBin) and the span bytes (int.to_bytes) are evaluated on the observation — the model has no "
-    "subclass tables; a fifth of all field objects in every check are instances of a do-nothing user sub-subclass; a tenth of the cases hand integers over as integral floats or numpy scalars (the same numbers). Every third target line of the single-field cases ends in TAB / LF / CR / NBSP / VT / FF instead of a letter. History: every fourth single-field case is run a second time, and a quarter of the line cases are run, on field objects that were already written before the observed write (one to three earlier writes of the SAME field object(s): onto a target of the other storage kind or of the same kind with another length, holding the identical value object / no value / an equal value assigned again; for lines through the same Line object with its storage switched by the setter or through another Line over the same field objects); in two fifths of these histories one of the earlier uses is a DELIMITED Line.write or Line.read (delimiter ; , or |) over the same field object(s), through another Line or through the very Line whose delimiter is then set back to None — the model is asked about the observed write alone, since every write is bound by the property whatever the object served for before. 'fits' is decided by the Lean predicate "
+    "subclass tables; a fifth of all field objects in every check are instances of a do-nothing user sub-subclass; a tenth of the cases hand integers over as integral floats or numpy scalars (the same numbers). Every third target line of the single-field cases ends in TAB / LF / CR / NBSP / VT / FF instead of a letter. History: every fourth single-field case is run a second time, and a quarter of the line cases are run, on field objects that were already written before the observed write (one to three earlier writes of the SAME field object(s): onto a target of the other storage kind or of the same kind with another length, holding the identical value object / no value / an equal value assigned again; for lines through the same Line object with its storage switched by the setter or through another Line over the same field objects); in two fifths of these histories one of the earlier uses is a DELIMITED Line.write or Line.read (delimiter ; , or |) over the same field object(s), through another Line or through the very Line whose delimiter is then set back to None — the model is asked about the observed write alone, since every write is bound by the property whatever the object served for before. Other objects: an eighth of the single-field cases (half of them on top of a history) and a fifth of the line cases are run after (or around) writes of OTHER field objects of the same class and configuration but with another size and starting position (one or two sibling fields / a sibling layout through its own Line, in the same or the other storage kind) that hold an EQUAL value — the identical object or an equal one built again; in the single-field cases the value is then a fresh one of the same kind and width drawn for the case (a date, digits, letters), so that no other case of the run has rendered it before — the model is asked about the observed write alone, since every field renders as wide as ITS OWN span whatever other fields of the process wrote before. 'fits' is decided by the Lean predicate "
     "Spec.C02.fits; non-fitting cases are skipped (counted under verdicts.skip). non-trivial = field size > 0 and "
     "value not None; distinct by full case."
 )
@@ -125,6 +125,58 @@ def warm_line(fs, case, vals):
     return keep
 
 
+def sibling_fields(case, make, v, again):
+    """writes of OTHER field objects before the observed one (case["sib"]): each step builds a field of the same
+    class and configuration with another size / starting position (make), gives it an equal value (the identical
+    object, or an equal one built again) and writes it onto a target line of its own. What these writes return or
+    raise is of no concern here. Returns the steps that are due right before the observed write."""
+    late = []
+    for st in case.get("sib") or []:
+        def go(st=st):
+            try:
+                g = make(st["size"], st["start"])
+                g.value = again() if st["value"] == "again" else v
+                g.write(codec.dec_data(st["line"]))
+            except Exception:
+                pass
+        if st.get("when") == "last":
+            late.append(go)
+        else:
+            go()
+    return late
+
+
+def sibling_layout(case, vals, when):
+    """a sibling layout (case["sib"]): fresh field objects of the same configurations with other sizes, shifted,
+    written through a Line of their own with equal values"""
+    from cfinterface.components.line import Line
+
+    sb = case.get("sib")
+    if not sb or sb.get("when", "first") != when:
+        return
+    try:
+        fds = case["fields"]
+        gs = [codec.mk_field({**fd, "size": sb["sizes"][i], "start": fd["start"] + sb["shift"]}) for i, fd in enumerate(fds)]
+        if sb["values"] == "again":
+            hv = [given(case, v, fds[i] if i < len(fds) else {}) for i, v in enumerate(case["values"])][: len(vals)]
+        else:
+            hv = vals
+        Line(gs, storage=sb["storage"]).write(hv)
+    except Exception:
+        pass
+
+
+def sib_text(case):
+    sb = case.get("sib")
+    if not sb:
+        return ""
+    if case["mode"] == "line":
+        return (f" — {'right before' if sb.get('when') == 'last' else 'earlier'} a SIBLING layout (other field objects, same configurations, sizes {sb['sizes']}, "
+                f"shifted by {sb['shift']}) wrote equal values ({sb['values']}) through its own {sb['storage'] or 'default'}-storage Line")
+    return " — OTHER field objects of the same configuration wrote an equal value before: " + "; ".join(
+        f"size {st['size']} at column {st['start']} onto {show(st['line'])} (value: {st['value']}, {st.get('when', 'first')})" for st in sb)
+
+
 def hist_text(case):
     hs = case.get("hist") or []
     if not hs:
@@ -146,8 +198,12 @@ def _run_impl(case):
     m = case["mode"]
     try:
         if m == "field":
+            v = given(case, case["value"], case["field"])
+            late = sibling_fields(case, lambda sz, st: codec.mk_field({**case["field"], "size": sz, "start": st}), v, lambda: given(case, case["value"], case["field"]))
             f = codec.mk_field(case["field"])
-            warm_field(f, case, given(case, case["value"], case["field"]))
+            warm_field(f, case, v)
+            for go in late:
+                go()
             return {"out": codec.enc_data(f.write(codec.dec_data(case["line"])))}
         if m == "field_struct":
             # a user subclass (two levels deep) that extends the class-level numeric type table
@@ -156,8 +212,12 @@ def _run_impl(case):
 
             mid = type("SmallInt", (IntegerField,), {"TYPES": {**IntegerField.TYPES, 1: np.int8}})
             cls = type("Flag", (mid,), {})
+            v = codec.dec_val(case["value"])
+            late = sibling_fields(case, cls, v, lambda: codec.dec_val(case["value"]))
             f = cls(case["field"]["size"], case["field"]["start"])
-            warm_field(f, case, codec.dec_val(case["value"]))
+            warm_field(f, case, v)
+            for go in late:
+                go()
             return {"out": codec.enc_data(f.write(codec.dec_data(case["line"])))}
         if m == "line":
             from cfinterface.components.line import Line
@@ -167,7 +227,9 @@ def _run_impl(case):
             vals = [given(case, v, fds[i] if i < len(fds) else {}) for i, v in enumerate(case["values"])]
             if case.get("nvals") is not None and case.get("via") not in ("values_arg", "fields_setter"):
                 vals = vals[: case["nvals"]]
+            sibling_layout(case, vals, "first")
             ln = warm_line(fs, case, vals)
+            sibling_layout(case, vals, "last")
             if ln is not None:
                 # the same Line object served another storage before; switched through the public setter
                 ln.storage = case["storage"]
@@ -248,9 +310,9 @@ def judge(case, obs, resp):
     if not resp["holds"]:
         if case["mode"] == "defaults":
             return {"status": "oracle", "why": f"default geometry is {obs.get('geometry')} {obs.get('float_format')} {obs.get('date_format')}, documented [80,0,8,0,8,0,4,16,0] F . %Y/%m/%d"}
-        return {"status": "oracle", "why": f"write produced {show(obs['out'])}; the layout discipline requires {show(resp['model'])}" + hist_text(case)}
+        return {"status": "oracle", "why": f"write produced {show(obs['out'])}; the layout discipline requires {show(resp['model'])}" + hist_text(case) + sib_text(case)}
     if not resp["agree"]:
-        return {"status": "corr", "why": f"model {show(resp['model'])} vs implementation {show(obs.get('out'))}" + hist_text(case)}
+        return {"status": "corr", "why": f"model {show(resp['model'])} vs implementation {show(obs.get('out'))}" + hist_text(case) + sib_text(case)}
     return {"status": "ok", "why": ""}
 
 
@@ -282,6 +344,8 @@ def features(case, obs):
     if m == "line":
         f += [f"storage={case['storage'] or 'default'}", f"nfields={len(case['fields'])}"]
     f.append(f"earlier_writes={len(case.get('hist') or [])}")
+    if case.get("sib"):
+        f.append("sibling_objects_before")
     if any(h.get("delim") for h in case.get("hist") or []):
         f.append("delimited_use_before")
     return f
@@ -506,6 +570,60 @@ def line_hist(c, rng):
     return {**c, "hist": steps}
 
 
+def fresh_value(v, rng):
+    """a value of the same kind and rendered width that no other case of the run holds"""
+    if not isinstance(v, dict):
+        return v
+    if "d" in v:
+        return codec.enc_val(datetime(rng.randrange(1000, 9999), rng.randrange(1, 13), rng.randrange(1, 29), rng.randrange(24), rng.randrange(60), rng.randrange(60)))
+    if "i" in v and v["i"] != 0:
+        w = len(str(abs(v["i"])))
+        n = int(str(rng.randrange(1, 10)) + "".join(str(rng.randrange(10)) for _ in range(w - 1)))
+        return {"i": n if v["i"] > 0 else -n}
+    if "s" in v:
+        return {"s": [c if c == 32 else ord(rng.choice("ABCDEFGHJKLMNPQRSTUVWXYZ")) for c in v["s"]]}
+    return v
+
+
+def field_sib(c, i):
+    """one or two writes of sibling field objects (another size, another column) with an equal value, first of
+    all or right before the observed write; binary numeric siblings take another of the sizes 2 / 4 / 8"""
+    rng = random.Random(i * 15485863 + 3)
+    fd = c["field"]
+    l = c["line"]
+    key = "s" if "s" in l else "b"
+    mark = [ord(ch) for ch in MARK]
+    steps = []
+    for _ in range(rng.choice([1, 1, 2])):
+        k2 = key if rng.random() < 0.7 else ("b" if key == "s" else "s")
+        if k2 == "b" and fd["k"] in ("int", "flt") and c["mode"] == "field":
+            size = rng.choice([z for z in (2, 4, 8) if z != fd["size"]])
+        elif c["mode"] == "field_struct":
+            size = rng.choice([z for z in (1, 2, 4) if z != fd["size"]])
+        else:
+            size = max(0, fd["size"] + rng.choice([-3, -2, -1, 1, 2, 4, 6]))
+        start = max(0, fd["start"] + rng.choice([-2, 0, 0, 1, 3]))
+        m = rng.choice([0, len(l[key]), start + size + 2, start + 1])
+        steps.append({"size": size, "start": start, "line": {k2: (mark + mark)[:m]}, "value": rng.choice(["same", "again"]), "when": rng.choice(["first", "last"])})
+    # (the binary integer of the subclass table keeps its value: its domain is the byte range, not a width)
+    return {**c, "value": c["value"] if c["mode"] == "field_struct" else fresh_value(c["value"], rng), "sib": steps}
+
+
+def line_sib(c, rng):
+    """a sibling layout: the same configurations with other sizes, shifted, written with equal values"""
+    binary = c["storage"] == "BINARY"
+    other = rng.random() < 0.3
+    sb = ("TEXT" if binary else "BINARY") if other else ("BINARY" if binary else "TEXT")
+    sizes = []
+    for fd in c["fields"]:
+        if sb == "BINARY" and fd["k"] in ("int", "flt"):
+            sizes.append(rng.choice([z for z in (2, 4, 8) if z != fd["size"]] if binary else [2, 4, 8]))
+        else:
+            sizes.append(max(1, fd["size"] + rng.choice([-4, -2, -1, 1, 2, 4, 6])))
+    sib = {"sizes": sizes, "shift": rng.choice([0, 0, 1, 5]), "storage": rng.choice(["", "TEXT"]) if sb == "TEXT" else "BINARY", "values": rng.choice(["same", "again"]), "when": rng.choice(["first", "last"])}
+    return {**c, "sib": sib}
+
+
 def cases_of(chunk):
     k = chunk["kind"]
     if k == "corpus":
@@ -521,21 +639,32 @@ def cases_of(chunk):
                 yield c
                 if i % 4 == 3:
                     yield field_hist(c, i)
+                if i % 8 == 5:
+                    yield field_sib(c, i)
+                elif i % 16 == 7:
+                    yield field_sib(field_hist(c, i), i)
     elif k == "exhbin":
         for i, c in enumerate(exhaustive_field_bin(chunk["mst"], chunk["ml"])):
             c = ws_tail(c, i)
             yield c
             if i % 4 == 3:
                 yield field_hist(c, i)
+            if i % 8 == 5:
+                yield field_sib(c, i)
+            elif i % 16 == 7:
+                yield field_sib(field_hist(c, i), i)
     elif k == "rline":
         rng = random.Random(chunk["seed"])
         hrng = random.Random(chunk["seed"] * 31 + 7)  # its own stream: the layouts stay what they were
+        srng = random.Random(chunk["seed"] * 131 + 29)  # the stream of the sibling layouts
         for _ in range(chunk["n"]):
             c = random_layout(rng, chunk["binary"])
             if rng.random() < 0.1:
                 c["int_as"] = rng.choice(["float", "np_float", "np_int"])
             if hrng.random() < 0.25:
                 c = line_hist(c, hrng)
+            if srng.random() < 0.2:
+                c = line_sib(c, random.Random(srng.randrange(2**32)))
             yield c
 
 
@@ -544,10 +673,19 @@ def shrinks(case):
     if len(hs) > 1:
         for i in range(len(hs)):
             yield {**case, "hist": hs[:i] + hs[i + 1 :]}
+    sb = case.get("sib")
+    if sb and hs:
+        yield {**case, "hist": []}
+    if sb and case["mode"] != "line" and len(sb) > 1:
+        for i in range(len(sb)):
+            yield {**case, "sib": sb[:i] + sb[i + 1 :]}
     if case["mode"] == "line":
         n = len(case["fields"])
         for i in range(n):
-            yield {**case, "fields": case["fields"][:i] + case["fields"][i + 1 :], "values": case["values"][:i] + case["values"][i + 1 :]}
+            c2 = {**case, "fields": case["fields"][:i] + case["fields"][i + 1 :], "values": case["values"][:i] + case["values"][i + 1 :]}
+            if sb:
+                c2["sib"] = {**sb, "sizes": sb["sizes"][:i] + sb["sizes"][i + 1 :]}
+            yield c2
     if case["mode"] == "field":
         l = case["line"]
         key = "s" if "s" in l else "b"
